@@ -38,6 +38,10 @@ def _is_date(v):
     return 1 <= d <= dim[mo - 1]
 
 
+def _is_posint(v):
+    return bool(re.fullmatch(r'\+?[0-9]+', v)) and int(v) > 0
+
+
 SIMPLE = {      # name -> (XSD type, valid literals used by the enumerator, membership predicate)
     'int': ('xs:int', ('7', '42'), _is_int),
     'date': ('xs:date', ('2020-02-29',), _is_date),
@@ -47,7 +51,26 @@ SIMPLE = {      # name -> (XSD type, valid literals used by the enumerator, memb
                                                                    v.strip(' \t\r\n')))),
     'str': ('xs:string', ('s',), lambda v: True),
     'id1': ('xs:int', ('1', '2'), _is_int),          # key / keyref fields
+    'int1': ('xs:int', ('7',), _is_int),             # single literal: keeps the recursive schema small
+    # union of xs:positiveInteger and an enumeration; the same restricted by a pattern; a pattern-restricted
+    # token; a pattern-restricted list of xs:int (the predicates only ever see catalogue literals, BAD and '')
+    'uw': ('uw', ('12500', 'large'), lambda v: _is_posint(v) or v in ('small', 'large')),
+    'usz': ('usz', ('42', 'small'), lambda v: bool(re.fullmatch(r'[0-9]{1,3}|[a-z]+', v))
+            and (_is_posint(v) or v in ('small', 'large'))),
+    'pcode': ('pcode', ('AB1',), lambda v: bool(re.fullmatch(r'[A-Z]{2}[0-9]', v))),
+    'plist': ('plist', ('1 2',), lambda v: bool(re.fullmatch(r'[0-9]+( [0-9]+)*', v))
+              and all(_is_int(x) for x in v.split(' '))),
 }
+UNION_XSD = ('<xs:simpleType name="sizeName"><xs:restriction base="xs:token"><xs:enumeration value="small"/>'
+             '<xs:enumeration value="large"/></xs:restriction></xs:simpleType>'
+             '<xs:simpleType name="uw"><xs:union memberTypes="xs:positiveInteger sizeName"/></xs:simpleType>'
+             '<xs:simpleType name="usz"><xs:restriction base="uw"><xs:pattern value="[0-9]{1,3}|[a-z]+"/>'
+             '</xs:restriction></xs:simpleType>'
+             '<xs:simpleType name="pcode"><xs:restriction base="xs:token"><xs:pattern value="[A-Z]{2}[0-9]"/>'
+             '</xs:restriction></xs:simpleType>'
+             '<xs:simpleType name="ilist"><xs:list itemType="xs:int"/></xs:simpleType>'
+             '<xs:simpleType name="plist"><xs:restriction base="ilist"><xs:pattern value="[0-9]+( [0-9]+)*"/>'
+             '</xs:restriction></xs:simpleType>')
 COLOUR_XSD = ('<xs:simpleType name="colour"><xs:restriction base="xs:token"><xs:enumeration value="red"/>'
               '<xs:enumeration value="blue"/></xs:restriction></xs:simpleType>')
 
@@ -71,6 +94,17 @@ class E:
         self.tag = '{%s}%s' % (ns, name) if ns else name
 
 
+class R(E):
+    """A reference to a global element of the same schema (allows recursive declarations)."""
+    def __init__(self, target, lo=1, hi=1):
+        self.target, self.lo, self.hi = target, lo, hi
+        self.name, self.ns, self.tag = target.name, target.ns, target.tag
+
+    @property
+    def type(self):
+        return self.target.type
+
+
 class G:
     def __init__(self, kind, items, lo=1, hi=1):
         self.kind, self.items, self.lo, self.hi = kind, items, lo, hi
@@ -90,14 +124,16 @@ def choice(*items, **kw):
 
 
 INT, DATE, BOOL, COLOUR, DEC, STR, ID1 = (S(n) for n in ('int', 'date', 'bool', 'colour', 'dec', 'str', 'id1'))
+UW, USZ, PCODE, PLIST, INT1 = (S(n) for n in ('uw', 'usz', 'pcode', 'plist', 'int1'))
 
 
 def _specs():
     out = []
 
-    def add(sid, root, target=None, others=(), identity=None, spellings=('prefixed',), note=''):
+    def add(sid, root, target=None, others=(), identity=None, spellings=('prefixed',), note='', globals_=(),
+            types=''):
         out.append({'id': sid, 'root': root, 'target': target, 'others': tuple(others), 'identity': identity,
-                    'spellings': spellings, 'note': note})
+                    'spellings': spellings, 'note': note, 'globals': tuple(globals_), 'types': types})
 
     # G1: three levels of nested anonymous complex types
     add('G01-nested3', E('r', CT(seq(
@@ -139,6 +175,15 @@ def _specs():
     # G11: mixed content beside element-only content
     add('G11-mixed', E('r', CT(seq(E('m', CT(seq(E('a', INT), E('b', COLOUR, 0, 1)), mixed=True)),
                                    E('p', CT(seq(E('a', INT, 1, 2))))))), note='mixed content')
+    # G12: a recursive element: the tag recurs at several depths, under a parent of the same tag, below an
+    # earlier sibling, and as repeated siblings at each level
+    sec = E('s', None)
+    sec.type = CT(seq(E('n', INT1), R(sec, 0, 2)), [A('k', INT1)])
+    add('G12-recursive', E('r', CT(seq(R(sec, 1, 3)))), globals_=[sec], note='recursive element, same tag at several depths')
+    # G13: pattern-restricted union values followed by other union values; pattern-restricted token and list
+    add('G13-unions', E('r', CT(seq(E('a', USZ), E('b', USZ, 0, 1), E('w', UW), E('c', PCODE, 0, 1),
+                                    E('l', PLIST, 0, 1), E('w2', UW, 0, 1)), [A('u', USZ)])),
+        types=UNION_XSD, note='unions and lists restricted by patterns')
     return out
 
 
@@ -180,6 +225,8 @@ def _render_particle(p, target):
     if isinstance(p, G):
         tag = 'sequence' if p.kind == 'seq' else 'choice'
         return '<xs:%s%s>%s</xs:%s>' % (tag, _occ(p), ''.join(_render_particle(i, target) for i in p.items), tag)
+    if isinstance(p, R):
+        return '<xs:element ref="%s"%s/>' % (p.name, _occ(p))
     if p.ns and p.ns != target:
         return '<xs:element ref="o:%s"%s/>' % (p.name, _occ(p))
     return _render_element(p, target, ' form="%s"' % ('qualified' if p.ns else 'unqualified') + _occ(p))
@@ -208,11 +255,11 @@ def render(spec):
             ident = ('<xs:key name="k"><xs:selector xpath="%s"/><xs:field xpath="@%s"/></xs:key>'
                      '<xs:keyref name="kr" refer="k"><xs:selector xpath="%s"/><xs:field xpath="@%s"/></xs:keyref>'
                      % (ksel, kf, rsel, rf))
-        body = ''.join(_render_element(g, target, ident=ident) for g in globals_)
-        return head + COLOUR_XSD + body + '</xs:schema>'
+        body = ''.join(_render_element(g, target, ident=ident if g is spec['root'] else '') for g in globals_)
+        return head + COLOUR_XSD + spec['types'] + body + '</xs:schema>'
 
     target = spec['target']
-    texts = [doc(target, NS1 if spec['others'] else None, [spec['root']], spec['identity'])]
+    texts = [doc(target, NS1 if spec['others'] else None, [spec['root']] + list(spec['globals']), spec['identity'])]
     if spec['others']:
         texts.append(doc(NS1, None, list(spec['others'])))
     return texts
